@@ -139,17 +139,37 @@ func checkFilter(s spec, corr bool, family string) {
 		d := firstDiff(fb, want)
 		rep.Violate("C14:bytes:bip158", "filter bytes / N / P differ from the Golomb-Rice encoding of the sorted values floor(SipHash(key,item)*N*M/2^64) (independent reference)",
 			s.replay(map[string]interface{}{"impl_N": f.N(), "impl_P": f.P(), "impl_len": len(fb), "reference_len": len(want), "first_difference_at_byte": d,
-				"impl_bytes": vh.Hex(trunc(fb, 64)), "reference_bytes": vh.Hex(trunc(want, 64))}))
+				"impl_bytes": vh.Hex(window(fb, d)), "reference_bytes": vh.Hex(window(want, d)), "bytes_shown_from_offset": windowStart(d)}))
 	}
 	// number of codewords: decoding must give exactly N values before the pad
 	if dec, used := gref.Decode(uint(s.P), fb, n); len(dec) != n || len(fb)*8-used >= 8 && n > 0 {
 		rep.Violate("C14:bytes:count", "the filter bytes do not hold exactly N codewords followed by fewer than 8 pad bits",
 			s.replay(map[string]interface{}{"decoded_values": len(dec), "bits_used": used, "bits_total": len(fb) * 8}))
 	}
+	if n > 0 {
+		_, used := gref.Decode(uint(s.P), want, n)
+		rep.Histogram[fmt.Sprintf("pad=%d", len(want)*8-used)]++
+	}
+	switch {
+	case len(fb) >= 1<<20:
+		rep.Histogram["bytes>=1MiB"]++
+	case len(fb) > 400000:
+		rep.Histogram["bytes>400000"]++
+	case len(fb) >= 64<<10:
+		rep.Histogram["bytes>=64KiB"]++
+	}
 	// --- serialisations are the stated concatenations
-	nb, e1 := f.NBytes()
-	pb, e2 := f.PBytes()
-	npb, e3 := f.NPBytes()
+	var nb, pb, npb []byte
+	var e1, e2, e3 error
+	for _, c := range []struct {
+		name string
+		call func()
+	}{{"NBytes", func() { nb, e1 = f.NBytes() }}, {"PBytes", func() { pb, e2 = f.PBytes() }}, {"NPBytes", func() { npb, e3 = f.NPBytes() }}} {
+		if pn, msg := vh.Catch(c.call); pn {
+			rep.Violate("C14:ser:panic", "a serialisation method panicked on a built filter", s.replay(map[string]interface{}{"method": c.name, "panic": msg, "filter_bytes": len(fb)}))
+			return
+		}
+	}
 	vi := gref.VarInt(uint64(n))
 	wantN := append(append([]byte{}, vi...), fb...)
 	wantP := append([]byte{s.P}, fb...)
@@ -157,16 +177,31 @@ func checkFilter(s spec, corr bool, family string) {
 	rep.Count("serialise", fmt.Sprintf("s%d/%d/%x", s.P, n, fb), n > 0)
 	if e1 != nil || e2 != nil || e3 != nil || !bytes.Equal(nb, wantN) || !bytes.Equal(pb, wantP) || !bytes.Equal(npb, wantNP) {
 		rep.Violate("C14:ser:concat", "NBytes / PBytes / NPBytes is not CompactSize(N) / P / both followed by the filter bytes",
-			s.replay(map[string]interface{}{"filter": vh.Hex(trunc(fb, 64)), "NBytes": vh.Hex(trunc(nb, 80)), "PBytes": vh.Hex(trunc(pb, 80)), "NPBytes": vh.Hex(trunc(npb, 80))}))
+			s.replay(map[string]interface{}{"filter": vh.Hex(trunc(fb, 64)), "NBytes": vh.Hex(trunc(nb, 80)), "PBytes": vh.Hex(trunc(pb, 80)), "NPBytes": vh.Hex(trunc(npb, 80)),
+				"lengths_filter_N_P_NP": []int{len(fb), len(nb), len(pb), len(npb)}, "first_difference_N_P_NP": []int{firstDiff(nb, wantN), firstDiff(pb, wantP), firstDiff(npb, wantNP)}}))
 	}
+	stillSame := func(after string) {
+		// no serialisation / hash method may change the filter: Bytes(), N(), P() as before, bytes still the reference
+		fb2, _ := f.Bytes()
+		if !bytes.Equal(fb2, fb) || int(f.N()) != n || f.P() != s.P {
+			rep.Violate("C14:ser:mutates", "Bytes() / N() / P() of a built filter changed after calling "+after,
+				s.replay(map[string]interface{}{"after": after, "len_before": len(fb), "len_after": len(fb2), "first_difference_at_byte": firstDiff(fb2, fb)}))
+		}
+	}
+	stillSame("NBytes / PBytes / NPBytes")
 	// --- deserialise round trips: same N, P, bytes, same answers
 	for _, via := range []string{"FromNBytes", "FromBytes"} {
 		var g *gcs.Filter
 		var err error
-		if via == "FromNBytes" {
-			g, err = gcs.FromNBytes(s.P, s.M, nb)
-		} else {
-			g, err = gcs.FromBytes(f.N(), s.P, s.M, fb)
+		if pn, msg := vh.Catch(func() {
+			if via == "FromNBytes" {
+				g, err = gcs.FromNBytes(s.P, s.M, nb)
+			} else {
+				g, err = gcs.FromBytes(f.N(), s.P, s.M, fb)
+			}
+		}); pn {
+			rep.Violate("C14:deser:panic", via+" panicked on a serialisation produced by the library", s.replay(map[string]interface{}{"via": via, "panic": msg, "filter_bytes": len(fb)}))
+			continue
 		}
 		rep.Count("roundtrip:"+via, fmt.Sprintf("r%d/%d/%x", s.P, n, fb), n > 0)
 		if err != nil {
@@ -176,13 +211,20 @@ func checkFilter(s spec, corr bool, family string) {
 		gb, _ := g.Bytes()
 		if g.N() != f.N() || g.P() != f.P() || !bytes.Equal(gb, fb) || gcs.VerifModulusNP(g) != gcs.VerifModulusNP(f) {
 			rep.Violate("C14:roundtrip:fields", "a filter rebuilt from its serialisation has different N / P / bytes / modulus",
-				s.replay(map[string]interface{}{"via": via, "N": []uint32{f.N(), g.N()}, "P": []uint8{f.P(), g.P()}}))
+				s.replay(map[string]interface{}{"via": via, "N": []uint32{f.N(), g.N()}, "P": []int{int(f.P()), int(g.P())}, "bytes_len": []int{len(fb), len(gb)}, "first_difference_at_byte": firstDiff(gb, fb)}))
 			continue
 		}
 		// same answers: a few members and non-members through all forms
 		var qs [][]byte
 		for i := 0; i < n && i < 6; i++ {
 			qs = append(qs, s.Data[(i*7)%n])
+		}
+		if n > 6 && len(vals) == n { // the members with the two largest hashed values: the last codewords
+			for _, d := range s.Data {
+				if v := gref.Value(s.Key, F, d); v >= vals[n-2] && len(qs) < 8 {
+					qs = append(qs, d)
+				}
+			}
 		}
 		qs = append(qs, []byte{0xEE, 1, 2, 3, 4, 5, 6, 7, 8, 9}, []byte("not a member"))
 		for _, q := range qs {
@@ -216,6 +258,7 @@ func checkFilter(s spec, corr bool, family string) {
 			rep.Violate("C14:hash:header", "GetFilterHash / MakeHeaderForFilter differ from SHA256d(CompactSize(N)||bytes) / SHA256d(hash||prev)",
 				s.replay(map[string]interface{}{"filter": vh.Hex(trunc(fb, 64)), "prev": vh.Hex(prev[:]), "impl_hash": vh.Hex(fh[:]), "impl_header": vh.Hex(fhd[:])}))
 		}
+		stillSame("GetFilterHash / MakeHeaderForFilter")
 	}
 	if corr {
 		cases.Add(fmt.Sprintf("Build %d %d %s %s 0 %d %s", s.P, s.M, vh.CoqBytes(s.Key[:]), gref.CoqItems(s.Data), f.N(), vh.CoqBytes(fb)),
@@ -232,6 +275,22 @@ func checkFilter(s spec, corr bool, family string) {
 			cases.Add(fmt.Sprintf("Writer %d %s", s.P, vh.CoqListU64(vals)), map[string]interface{}{"op": "model-internal: bstream writer machine vs pack", "P": s.P, "values": vals})
 		}
 	}
+}
+
+// window is up to 64 bytes of b around offset d (the whole prefix when d < 48).
+func windowStart(d int) int {
+	if d < 48 {
+		return 0
+	}
+	return d - 16
+}
+
+func window(b []byte, d int) []byte {
+	lo := windowStart(d)
+	if lo > len(b) {
+		lo = len(b)
+	}
+	return trunc(b[lo:], 64)
 }
 
 func trunc(b []byte, n int) []byte {
@@ -369,14 +428,41 @@ func familyBig(rng *vh.RNG) {
 		list = append(list, cfgT{100000, 19, 784931}, cfgT{100000, 10, 1 << 10}, cfgT{50000, 25, 1<<25 + 77}, cfgT{70000, 5, 43}, cfgT{40000, 32, 1 << 33})
 	}
 	for _, c := range list {
-		s := spec{P: c.p, M: c.m, Key: randKey(r)}
-		seed := r.U64()
-		s.Gen = fmt.Sprintf("N=%d items: LE64(x*0x9E3779B97F4A7C15 + %d) for x in 0..N-1", c.n, seed)
-		for i := 0; i < c.n; i++ {
-			s.Data = append(s.Data, gref.LE64(uint64(i)*0x9E3779B97F4A7C15+seed))
-		}
-		checkFilter(s, false, "big")
+		checkFilter(bigSpec(c.n, c.p, c.m, randKey(r), r.U64()), false, "big")
 	}
+	// Round 3: the size classes nothing reached.  P = 32 with N in [2^16, 2^17) (bit 16 of N set, remainders of a full
+	// word) and a filter above 400000 bytes in EVERY tier; thorough/search: N in [2^17, 2^18) at P = 32, more than
+	// 1 MiB, and for each large configuration three consecutive N so that the number of pad bits after the last
+	// codeword varies (the bytes are compared with the reference including the zero pad).  Own stream.
+	r2 := rng.Fork("big-r3")
+	list2 := []cfgT{{70002, 32, 1 << 32}, {70003, 32, 1 << 32}, {100000, 32, 1 << 32}, {66001, 19, 784931}, {131073, 32, 1<<32 + 99}, {400000, 19, 784931}}
+	if cfg.Thorough() || cfg.Search {
+		list2 = append(list2, cfgT{70004, 32, 1 << 32}, cfgT{100001, 32, 1 << 32}, cfgT{100002, 32, 1 << 32}, cfgT{131074, 32, 1<<32 + 99}, cfgT{140000, 19, 784931}, cfgT{140001, 19, 784931},
+			cfgT{400001, 19, 784931}, cfgT{65536, 31, 1 << 31}, cfgT{131072, 1, 3}, cfgT{262144 + 7, 8, 1 << 8}, cfgT{1<<20 + 1, 10, 1 << 10})
+	}
+	for _, c := range list2 {
+		checkFilter(bigSpec(c.n, c.p, c.m, randKey(r2), r2.U64()), false, "big")
+	}
+}
+
+// bigSpec is a set too large to print, described by a formula (runReplay parses it back).
+func bigSpec(n int, p uint8, m uint64, key [16]byte, seed uint64) spec {
+	s := spec{P: p, M: m, Key: key}
+	s.Gen = fmt.Sprintf("N=%d items: LE64(x*0x9E3779B97F4A7C15 + %d) for x in 0..N-1", n, seed)
+	s.Data = make([][]byte, n)
+	for i := range s.Data {
+		s.Data[i] = gref.LE64(uint64(i)*0x9E3779B97F4A7C15 + seed)
+	}
+	return s
+}
+
+func parseBigSpec(g string) ([][]byte, bool) {
+	var n int
+	var seed uint64
+	if _, err := fmt.Sscanf(g, "N=%d items: LE64(x*0x9E3779B97F4A7C15 + %d) for x in 0..N-1", &n, &seed); err != nil || n < 0 || n > 1<<24 {
+		return nil, false
+	}
+	return bigSpec(n, 0, 0, [16]byte{}, seed).Data, true
 }
 
 // N across the CompactSize boundaries (0xfc/0xfd, 0xffff/0x10000, 2^32-1) through FromBytes, then
@@ -394,15 +480,27 @@ func familySerN(rng *vh.RNG) {
 		if i%5 == 0 {
 			body = nil
 		}
-		f, err := gcs.FromBytes(n, p, m, body)
+		var f *gcs.Filter
+		var err error
+		if pn, msg := vh.Catch(func() { f, err = gcs.FromBytes(n, p, m, body) }); pn {
+			rep.Violate("C14:deser:panic", "FromBytes panicked", map[string]interface{}{"N": n, "P": p, "M": u(m), "bytes": vh.Hex(body), "panic": msg})
+			continue
+		}
 		if err != nil {
 			rep.Violate("C14:deser:frombytes", "FromBytes accepts/rejects differently from P <= 32", map[string]interface{}{"N": n, "P": p, "impl_class": errClass(err)})
 			continue
 		}
-		fb, _ := f.Bytes()
-		nb, e1 := f.NBytes()
-		pb, e2 := f.PBytes()
-		npb, e3 := f.NPBytes()
+		var fb, nb, pb, npb []byte
+		var e1, e2, e3 error
+		if pn, msg := vh.Catch(func() {
+			fb, _ = f.Bytes()
+			nb, e1 = f.NBytes()
+			pb, e2 = f.PBytes()
+			npb, e3 = f.NPBytes()
+		}); pn {
+			rep.Violate("C14:ser:panic", "a serialisation method panicked", map[string]interface{}{"call": "FromBytes(N, P, M, bytes) then Bytes()/NBytes()/PBytes()/NPBytes()", "N": n, "P": p, "M": u(m), "bytes": vh.Hex(body), "panic": msg})
+			continue
+		}
 		vi := gref.VarInt(uint64(n))
 		wantN := append(append([]byte{}, vi...), body...)
 		wantP := append([]byte{p}, body...)
@@ -418,7 +516,12 @@ func familySerN(rng *vh.RNG) {
 			rep.Violate("C14:ser:concat", "NBytes / PBytes / NPBytes is not CompactSize(N) / P / both followed by the filter bytes", replay)
 			continue
 		}
-		g, err := gcs.FromNBytes(p, m, nb)
+		var g *gcs.Filter
+		if pn, msg := vh.Catch(func() { g, err = gcs.FromNBytes(p, m, nb) }); pn {
+			replay["panic"] = msg
+			rep.Violate("C14:deser:panic", "FromNBytes panicked on a serialisation produced by the library", replay)
+			continue
+		}
 		if err != nil {
 			replay["error"] = err.Error()
 			rep.Violate("C14:roundtrip:error", "FromNBytes rejected a serialisation produced by the library", replay)
@@ -1034,7 +1137,7 @@ func checkBlock(block *wire.MsgBlock, corr bool, what string) {
 	fb, _ := f.Bytes()
 	rep.Count("block", what+vh.Hex(bh[:8]), len(entries) > 0)
 	replay := map[string]interface{}{"block": what, "header": vh.Hex(hdr.Bytes()), "transactions": len(block.Transactions), "distinct_entries": len(entries), "impl_N": f.N(), "impl_P": f.P()}
-	if len(block.Transactions) <= 6 {
+	if len(block.Transactions) <= 6 && block.SerializeSize() <= 3000 {
 		var txs []string
 		for _, tx := range block.Transactions {
 			var b bytes.Buffer
@@ -1042,6 +1145,16 @@ func checkBlock(block *wire.MsgBlock, corr bool, what string) {
 			txs = append(txs, vh.Hex(b.Bytes()))
 		}
 		replay["txs"] = txs
+	} else if len(block.Transactions) <= 12 {
+		var lens [][]int
+		for _, tx := range block.Transactions {
+			l := []int{}
+			for _, o := range tx.TxOut {
+				l = append(l, len(o.PkScript))
+			}
+			lens = append(lens, l)
+		}
+		replay["output_script_lengths_per_tx"] = lens
 	}
 	if int(f.N()) != len(entries) || f.P() != 19 || !bytes.Equal(fb, want) {
 		replay["impl_bytes"], replay["reference_bytes"] = vh.Hex(trunc(fb, 64)), vh.Hex(trunc(want, 64))
@@ -1050,7 +1163,7 @@ func checkBlock(block *wire.MsgBlock, corr bool, what string) {
 	// every entry matches (C13 through the builder)
 	for _, e := range entries {
 		if ok, _ := f.Match(key, e); !ok {
-			replay["entry"] = vh.Hex(e)
+			replay["entry"], replay["entry_length"] = vh.Hex(trunc(e, 48)), len(e)
 			rep.Violate("C14:block:member", "an entry of the block is not matched by its basic filter", replay)
 			break
 		}
@@ -1202,6 +1315,305 @@ func familyBlocks(rng *vh.RNG) {
 	}
 }
 
+// ---------- Round 3: scripts and entries of every length class ----------
+// longScript is a script of exactly l bytes: 0x6a (OP_RETURN) followed by byte(j*131 + l + tag) at offset j.
+func longScript(l, tag int) []byte {
+	b := make([]byte, l)
+	for j := range b {
+		b[j] = byte(j*131 + l + tag)
+	}
+	if l > 0 {
+		b[0] = 0x6a
+	}
+	return b
+}
+
+const longScriptFormula = "script(L,t): L bytes, [0] = 0x6a, [j] = byte(j*131 + L + t)"
+
+// scriptLengths are the length classes: the push-opcode boundaries (75/76, 255/256), the standardness and consensus
+// limits of scripts (520, 10000), the 16-bit boundary and beyond.
+func scriptLengths() []int {
+	ls := []int{1, 2, 34, 75, 76, 77, 255, 256, 257, 519, 520, 521, 4096, 9999, 10000, 10001, 10002, 20000, 65535, 65536, 65537, 100000}
+	if cfg.Thorough() || cfg.Search {
+		ls = append(ls, 1<<18+1, 1<<20+5)
+	}
+	return ls
+}
+
+func familyBlocksLong(rng *vh.RNG) {
+	r := rng.Fork("blockslong")
+	mkBlock := func() *wire.MsgBlock {
+		hdr := wire.BlockHeader{Version: int32(r.U32()), Timestamp: time.Unix(int64(r.U32()), 0), Bits: r.U32(), Nonce: r.U32()}
+		copy(hdr.PrevBlock[:], r.Bytes(32))
+		copy(hdr.MerkleRoot[:], r.Bytes(32))
+		return wire.NewMsgBlock(&hdr)
+	}
+	mkTx := func(nin int, scripts ...[]byte) *wire.MsgTx {
+		tx := wire.NewMsgTx(1)
+		for k := 0; k < nin; k++ {
+			var op wire.OutPoint
+			copy(op.Hash[:], r.Bytes(32))
+			op.Index = uint32(r.Intn(4))
+			tx.AddTxIn(wire.NewTxIn(&op, nil))
+		}
+		for _, s := range scripts {
+			tx.AddTxOut(wire.NewTxOut(int64(r.Intn(1000)), s, wire.TokenData{}))
+			rep.Histogram[scriptClass(len(s))]++
+		}
+		return tx
+	}
+	mempool := func(txs []*wire.MsgTx, what string) {
+		var f *gcs.Filter
+		var err error
+		if pn, msg := vh.Catch(func() { f, err = builder.BuildMempoolFilter(txs) }); pn || err != nil {
+			rep.Violate("C14:block:mempool", "BuildMempoolFilter failed or panicked", map[string]interface{}{"block": what, "panic": msg, "error": fmt.Sprint(err)})
+			return
+		}
+		entries := expectedEntries(append([]*wire.MsgTx{{}}, txs...))
+		var key [16]byte
+		want := gref.Pack(gref.EncodeBits(19, gref.Values(key, gref.Modulus(uint64(len(entries)), 784931), entries)))
+		fb, _ := f.Bytes()
+		rep.Count("mempool", what, len(entries) > 0)
+		if int(f.N()) != len(entries) || !bytes.Equal(fb, want) {
+			rep.Violate("C14:block:mempool", "BuildMempoolFilter is not the zero-keyed filter of all inputs' outpoints and non-empty scripts",
+				map[string]interface{}{"block": what, "distinct_entries": len(entries), "impl_N": f.N(), "scripts": longScriptFormula})
+		}
+	}
+	lens := scriptLengths()
+	// (a) one block per length class: the long script in the coinbase, in a later transaction, and twice (one entry)
+	for li, l := range lens {
+		for variant := 0; variant < 3; variant++ {
+			block := mkBlock()
+			var what string
+			switch variant {
+			case 0:
+				block.AddTransaction(mkTx(1, longScript(l, li)))
+				what = fmt.Sprintf("long#%d.0: only a coinbase with one output, script(%d,%d); %s", li, l, li, longScriptFormula)
+			case 1:
+				block.AddTransaction(mkTx(1, []byte{0x51}))
+				block.AddTransaction(mkTx(2, []byte{0x52}, longScript(l, li), nil))
+				what = fmt.Sprintf("long#%d.1: coinbase [51]; tx with 2 inputs and outputs [52], script(%d,%d), empty; %s", li, l, li, longScriptFormula)
+			default:
+				other := longScript(l, li)
+				other[l-1] ^= 1 // differs from the first in the LAST byte only: a distinct entry
+				block.AddTransaction(mkTx(1, longScript(l, li)))
+				block.AddTransaction(mkTx(1, longScript(l, li), other, longScript(l+1, li)))
+				what = fmt.Sprintf("long#%d.2: coinbase script(%d,%d); tx with outputs script(%d,%d) again, the same with its last byte ^1, script(%d,%d); %s", li, l, li, l, li, l+1, li, longScriptFormula)
+			}
+			checkBlock(block, false, what)
+			if variant == 1 {
+				mempool(block.Transactions[1:], what)
+			}
+		}
+	}
+	// (b) every length class in one block
+	{
+		block := mkBlock()
+		block.AddTransaction(mkTx(1, []byte{0x51}))
+		var all [][]byte
+		for li, l := range lens {
+			all = append(all, longScript(l, 1000+li))
+		}
+		for i := 0; i < len(all); i += 4 {
+			j := i + 4
+			if j > len(all) {
+				j = len(all)
+			}
+			block.AddTransaction(mkTx(1, all[i:j]...))
+		}
+		what := fmt.Sprintf("long-all: coinbase [51]; transactions with 1 input and 4 outputs each, scripts script(L,1000+i) for the i-th L of %v; %s", lens, longScriptFormula)
+		checkBlock(block, false, what)
+		mempool(block.Transactions[1:], what)
+	}
+	// (c) blocks with hundreds of entries (short scripts, a few long ones in between)
+	for _, ntx := range []int{64, 257, cfg.Scale(600, 3000)} {
+		block := mkBlock()
+		block.AddTransaction(mkTx(1, []byte{0x51}))
+		for t := 1; t < ntx; t++ {
+			scripts := [][]byte{append([]byte{0x76, 0xa9, 0x14}, r.Bytes(22)...), longScript(20+t%60, t)}
+			if t%97 == 0 {
+				scripts = append(scripts, longScript(10001+t, t))
+			}
+			block.AddTransaction(mkTx(1+t%3, scripts...))
+		}
+		what := fmt.Sprintf("many#%d: %d transactions; tx t has 1+t%%3 inputs, outputs: a random 25-byte script, script(20+t%%60,t), and script(10001+t,t) when 97 divides t; %s", ntx, ntx, longScriptFormula)
+		checkBlock(block, false, what)
+		mempool(block.Transactions[1:], what)
+	}
+	// (d) the same length classes through the builder's own entry points
+	for li, l := range lens {
+		var key [16]byte
+		copy(key[:], r.Bytes(16))
+		e1, e2 := longScript(l, 2000+li), longScript(l, 3000+li)
+		h := chainhash.Hash{}
+		copy(h[:], r.Bytes(32))
+		var f *gcs.Filter
+		var err error
+		desc := map[string]interface{}{"call": fmt.Sprintf("WithKey(%x).AddEntry(script(%d,%d)).AddEntries([script(%d,%d), script(%d,%d), 01]).AddHash(%x).Build()", key, l, 2000+li, l, 3000+li, l, 2000+li, h[:]), "scripts": longScriptFormula}
+		if pn, msg := vh.Catch(func() { f, err = builder.WithKey(key).AddEntry(e1).AddEntries([][]byte{e2, e1, {1}}).AddHash(&h).Build() }); pn || err != nil {
+			desc["panic"], desc["error"] = msg, fmt.Sprint(err)
+			rep.Violate("C14:builder:panic", "a builder chain with long entries failed or panicked", desc)
+			continue
+		}
+		entries := [][]byte{e1, e2, {1}, h[:]}
+		if l == 1 && bytes.Equal(e1, []byte{1}) {
+			continue
+		}
+		if bytes.Equal(e1, e2) {
+			entries = entries[1:]
+		}
+		want := gref.Pack(gref.EncodeBits(19, gref.Values(key, gref.Modulus(uint64(len(entries)), 784931), entries)))
+		fb, _ := f.Bytes()
+		rep.Count("builder:long", fmt.Sprintf("bl%d", l), true)
+		if int(f.N()) != len(entries) || !bytes.Equal(fb, want) {
+			desc["impl_N"], desc["distinct_entries"] = f.N(), len(entries)
+			rep.Violate("C14:builder:content", "Build() is not the filter of the de-duplicated entries under the configured key, P and M (long entries)", desc)
+		}
+	}
+}
+
+func scriptClass(l int) string {
+	switch {
+	case l == 0:
+		return "script:len=0"
+	case l <= 75:
+		return "script:len<=75"
+	case l <= 520:
+		return "script:len<=520"
+	case l <= 10000:
+		return "script:len<=10000"
+	case l <= 65535:
+		return "script:len<=65535"
+	}
+	return "script:len>65535"
+}
+
+// serialisation methods on filters of every size class x every CompactSize class of N x the interesting P (0, 1, the
+// default, 31, 32), built through FromBytes from patterned bytes: every method under a panic guard (size hints
+// computed from N, P and the length), compared byte for byte with the stated concatenations; then FromNBytes back,
+// filter hash / header, and nothing may change the filter.
+func patternBytes(l int) []byte {
+	b := make([]byte, l)
+	for i := range b {
+		b[i] = byte(i*167 + (i>>8)*13 + l)
+	}
+	return b
+}
+
+func familySerSizes(rng *vh.RNG) {
+	ns := []uint32{0, 1, 0xfc, 0xfd, 0xffff, 0x10000, 0x10001, 0x1ffff, 0x20000, 0x30000, 0xffffff, 0x1000000, 0x7fffffff, 0x80000000, 0xffffffff}
+	ps := []uint8{0, 1, 19, 31, 32}
+	sizes := []int{0, 1, 7, 8, 9, 255, 256, 4096, 65535, 65536, 65537}
+	bigSizes := []int{1<<18 + 1, 400001, 1<<20 + 3}
+	if cfg.Thorough() || cfg.Search {
+		bigSizes = append(bigSizes, 1<<18-1, 1<<18, 399999, 400000, 1<<19+1, 1<<21+1)
+	}
+	type combo struct {
+		n    uint32
+		p    uint8
+		size int
+	}
+	var combos []combo
+	for _, n := range ns {
+		for _, p := range ps {
+			for _, sz := range sizes {
+				combos = append(combos, combo{n, p, sz})
+			}
+		}
+		for _, p := range []uint8{19, 32} {
+			for _, sz := range bigSizes {
+				combos = append(combos, combo{n, p, sz})
+			}
+		}
+	}
+	bodies := map[int][]byte{}
+	for _, c := range combos {
+		body, ok := bodies[c.size]
+		if !ok {
+			body = patternBytes(c.size)
+			bodies[c.size] = body
+		}
+		m := uint64(784931)
+		if c.p == 32 {
+			m = 1 << 32
+		}
+		replay := map[string]interface{}{"call": "FromBytes(N, P, M, bytes) then Bytes / NBytes / PBytes / NPBytes, FromNBytes(P, M, NBytes()), GetFilterHash, MakeHeaderForFilter",
+			"N": c.n, "P": c.p, "M": u(m), "bytes_length": c.size, "bytes": "bytes[i] = byte(i*167 + (i>>8)*13 + length)"}
+		var f *gcs.Filter
+		var err error
+		if pn, msg := vh.Catch(func() { f, err = gcs.FromBytes(c.n, c.p, m, body) }); pn || err != nil {
+			replay["panic"], replay["error"] = msg, fmt.Sprint(err)
+			rep.Violate("C14:deser:frombytes", "FromBytes failed or panicked on admissible parameters", replay)
+			continue
+		}
+		rep.Count("sersizes", fmt.Sprintf("ss%d/%d/%d", c.n, c.p, c.size), c.size > 0)
+		var fb, nb, pb, npb []byte
+		var e0, e1, e2, e3 error
+		failed := false
+		for _, mc := range []struct {
+			name string
+			call func()
+		}{{"Bytes", func() { fb, e0 = f.Bytes() }}, {"NBytes", func() { nb, e1 = f.NBytes() }}, {"PBytes", func() { pb, e2 = f.PBytes() }}, {"NPBytes", func() { npb, e3 = f.NPBytes() }}} {
+			if pn, msg := vh.Catch(mc.call); pn {
+				replay["method"], replay["panic"] = mc.name, msg
+				rep.Violate("C14:ser:panic", "a serialisation method panicked", replay)
+				failed = true
+				break
+			}
+		}
+		if failed {
+			continue
+		}
+		vi := gref.VarInt(uint64(c.n))
+		wantN := append(append([]byte{}, vi...), body...)
+		wantP := append([]byte{c.p}, body...)
+		wantNP := append(append(append([]byte{}, vi...), c.p), body...)
+		if e0 != nil || f.N() != c.n || f.P() != c.p || !bytes.Equal(fb, body) {
+			replay["first_difference_at_byte"] = firstDiff(fb, body)
+			rep.Violate("C14:deser:fields", "FromBytes returned wrong N / P / bytes", replay)
+			continue
+		}
+		if e1 != nil || e2 != nil || e3 != nil || !bytes.Equal(nb, wantN) || !bytes.Equal(pb, wantP) || !bytes.Equal(npb, wantNP) {
+			replay["lengths_N_P_NP"] = []int{len(nb), len(pb), len(npb)}
+			replay["first_difference_N_P_NP"] = []int{firstDiff(nb, wantN), firstDiff(pb, wantP), firstDiff(npb, wantNP)}
+			rep.Violate("C14:ser:concat", "NBytes / PBytes / NPBytes is not CompactSize(N) / P / both followed by the filter bytes", replay)
+			continue
+		}
+		var g *gcs.Filter
+		if pn, msg := vh.Catch(func() { g, err = gcs.FromNBytes(c.p, m, nb) }); pn {
+			replay["panic"] = msg
+			rep.Violate("C14:deser:panic", "FromNBytes panicked on a serialisation produced by the library", replay)
+			continue
+		} else if err != nil {
+			replay["error"] = err.Error()
+			rep.Violate("C14:roundtrip:error", "FromNBytes rejected a serialisation produced by the library", replay)
+			continue
+		}
+		if gb, _ := g.Bytes(); g.N() != c.n || g.P() != c.p || !bytes.Equal(gb, body) || gcs.VerifModulusNP(g) != gcs.VerifModulusNP(f) {
+			replay["rebuilt_N"], replay["rebuilt_len"] = g.N(), len(gb)
+			rep.Violate("C14:roundtrip:fields", "a filter rebuilt from its serialisation has different N / P / bytes / modulus", replay)
+		}
+		if c.size <= 65537 || c.n%7 == 1 || c.n == 0x10000 {
+			prev := chainhash.Hash{}
+			var fh, fhd chainhash.Hash
+			var h1, h2 error
+			if pn, msg := vh.Catch(func() { fh, h1 = builder.GetFilterHash(f); fhd, h2 = builder.MakeHeaderForFilter(f, prev) }); pn {
+				replay["panic"] = msg
+				rep.Violate("C14:ser:panic", "GetFilterHash / MakeHeaderForFilter panicked", replay)
+				continue
+			}
+			wantH := sha256d(wantN)
+			if h1 != nil || h2 != nil || !bytes.Equal(fh[:], wantH) || !bytes.Equal(fhd[:], sha256d(append(append([]byte{}, wantH...), prev[:]...))) {
+				rep.Violate("C14:hash:header", "GetFilterHash / MakeHeaderForFilter differ from SHA256d(CompactSize(N)||bytes) / SHA256d(hash||prev)", replay)
+			}
+		}
+		if fb2, _ := f.Bytes(); !bytes.Equal(fb2, body) || f.N() != c.n || f.P() != c.p {
+			replay["len_after"] = len(fb2)
+			rep.Violate("C14:ser:mutates", "Bytes() / N() / P() of a filter changed after calling its serialisation / hash methods", replay)
+		}
+	}
+}
+
 // ---------- replay ----------
 func runReplay(path string) {
 	raw, err := os.ReadFile(path)
@@ -1212,6 +1624,23 @@ func runReplay(path string) {
 	}
 	vh.Must(json.Unmarshal(raw, &doc))
 	in := doc.Input
+	if g, ok := in["set"].(string); ok {
+		if d, ok2 := parseBigSpec(g); ok2 {
+			s := spec{Data: d, Gen: g}
+			if v, ok := in["P"].(float64); ok {
+				s.P = uint8(v)
+			}
+			if v, ok := in["M"].(string); ok {
+				s.M, _ = strconv.ParseUint(v, 10, 64)
+			}
+			if v, ok := in["key"].(string); ok {
+				b, _ := hex.DecodeString(v)
+				copy(s.Key[:], b)
+			}
+			checkFilter(s, false, "replay")
+			return
+		}
+	}
 	if _, ok := in["items"]; !ok {
 		// generated inputs (big sets, blocks, chains, reductions): re-run the family with the recorded seed
 		rng := vh.NewRNG(cfg.Seed)
@@ -1220,11 +1649,17 @@ func runReplay(path string) {
 			familyReduction(rng)
 		case strings.HasPrefix(doc.Key, "C14:builder"):
 			familyBuilder(rng)
-		case strings.HasPrefix(doc.Key, "C14:block"), strings.HasPrefix(doc.Key, "C14:hash"):
+			familyBlocksLong(rng)
+		case strings.HasPrefix(doc.Key, "C14:block"):
 			familyBlocks(rng)
+			familyBlocksLong(rng)
+		case strings.HasPrefix(doc.Key, "C14:hash"):
+			familyBlocks(rng)
+			familySerSizes(rng)
 		case strings.HasPrefix(doc.Key, "C14:deser"), strings.HasPrefix(doc.Key, "C14:ser"), strings.HasPrefix(doc.Key, "C14:roundtrip"):
 			familyDeser(rng)
 			familySerN(rng)
+			familySerSizes(rng)
 		default:
 			familyBig(rng)
 		}
@@ -1257,16 +1692,25 @@ func main() {
 	if cfg.Replay != "" {
 		runReplay(cfg.Replay)
 	} else {
-		familySmall(rng)
-		familyBig(rng)
-		familySerN(rng)
-		familyLongRun(rng)
-		familyCodeword(rng)
-		familyReduceWrap(rng)
-		familyReduction(rng)
-		familyBuilder(rng)
-		familyBlocks(rng)
-		familyDeser(rng)
+		secs := map[string]float64{}
+		timed := func(name string, f func(*vh.RNG)) {
+			t0 := time.Now()
+			f(rng)
+			secs[name] = float64(int(time.Since(t0).Seconds()*10)) / 10
+		}
+		timed("small", familySmall)
+		timed("big", familyBig)
+		timed("serN", familySerN)
+		timed("longrun", familyLongRun)
+		timed("codeword", familyCodeword)
+		timed("reducewrap", familyReduceWrap)
+		timed("reduction", familyReduction)
+		timed("builder", familyBuilder)
+		timed("blocks", familyBlocks)
+		timed("deser", familyDeser)
+		timed("sersizes", familySerSizes)
+		timed("blockslong", familyBlocksLong)
+		rep.Extra["family_seconds"] = secs
 	}
 	keys := make([]string, 0, len(rep.Histogram))
 	for k := range rep.Histogram {
